@@ -152,7 +152,7 @@ def overrides_delegate(repo, run, rule, cls, value_returning=True, floor=3):
             if value_returning and name != '__init__':
                 fin = tr.final_event(p)
                 rt = fin.value.text if fin is not None and fin.value is not None else 'None'
-                has_return = any(isinstance(x, ast.Return) and x.value is not None for x in ast.walk(fi.node))
+                has_return = any(isinstance(x, ast.Return) and x.value is not None and not (isinstance(x.value, ast.Constant) and x.value.value is None) for x in ast.walk(fi.node))
                 if has_return and rt != e.result.text:
                     probs.append('%s returns %s, not what the overridden method returned' % (name, rt[:50]))
         if probs:
